@@ -1,8 +1,9 @@
 import json, sys, xml.etree.ElementTree as ET
 base = set(json.load(open('/root/.vp/BASELINE.json'))['stable_pass'])
-t = ET.parse(sys.argv[1]).getroot()
 passed = set()
-for tc in t.iter('testcase'):
-    if not any(ch.tag in ('failure', 'error', 'skipped') for ch in tc):
-        passed.add(tc.get('classname') + '::' + tc.get('name'))
+for f in sys.argv[1:]:
+    t = ET.parse(f).getroot()
+    for tc in t.iter('testcase'):
+        if not any(ch.tag in ('failure', 'error', 'skipped') for ch in tc):
+            passed.add(tc.get('classname') + '::' + tc.get('name'))
 print('baseline', len(base), 'passed now', len(passed), 'baseline tests not passing now:', sorted(base - passed))
